@@ -446,9 +446,55 @@ fn e4(ctx: &Ctx, res: &mut PartResult) {
     res.distinct_outcomes = states.len();
 }
 
+/// sampling on: the accounting identities that still hold (values sent ⊆ values recorded since the previous flush,
+/// as many as min(n, reservoir size), sample rate = sent / recorded, next flush starts empty)
+fn sampling_part(res: &mut PartResult) {
+    res.engine = "E3 reservoir sizes x sample counts x 2 flush cycles through the real State::flush with histogram sampling on".into();
+    let mut states = vcore::vseq::States::new();
+    for size in [1usize, 2, 4] {
+        for n1 in 0..=size + 3 {
+            for n2 in [0usize, 1, size + 2] {
+                res.executions += 1;
+                let (mut drv, rec) = Driver::new(false, true, size, true, vec![], None, 8192, false);
+                let h = rec.register_histogram(&Key::from_name("his"), &META);
+                for (cycle, n) in [n1, n2].iter().enumerate() {
+                    res.transitions += 1;
+                    let base = (cycle * 100) as f64;
+                    for i in 0..*n {
+                        h.record(base + i as f64 + 1.0);
+                    }
+                    let msgs: Vec<Msg> = drv.flush_once().iter().filter_map(|p| statsd::parse_message(p).ok()).collect();
+                    let vals: Vec<f64> = msgs.iter().filter(|m| m.ty == 'd').flat_map(|m| m.values.iter().map(|v| v.parse::<f64>().unwrap_or(f64::NAN))).collect();
+                    let rate: Option<f64> = msgs.iter().filter(|m| m.ty == 'd').filter_map(|m| m.rate.as_ref().and_then(|r| r.parse().ok())).next();
+                    let cfg = json!({"size": size, "n1": n1, "n2": n2, "cycle": cycle});
+                    let mut seen = std::collections::BTreeSet::new();
+                    for v in &vals {
+                        if !(*v > base && *v <= base + *n as f64) || !seen.insert(v.to_bits()) {
+                            res.violation("sampled-flush-sends-value-not-recorded-this-cycle", format!("reservoir {} cycle {} ({} recorded): sent {:?}", size, cycle, n, vals), cfg.clone());
+                        }
+                    }
+                    if vals.len() != (*n).min(size) {
+                        res.violation("sampled-flush-sends-wrong-count", format!("reservoir {} cycle {} ({} recorded): sent {} values", size, cycle, n, vals.len()), cfg.clone());
+                    }
+                    if *n > 0 {
+                        let want = vals.len() as f64 / *n as f64;
+                        if rate.map(|r| (r - want).abs() > 1e-9).unwrap_or(true) {
+                            res.violation("sampled-flush-sample-rate-wrong", format!("reservoir {} cycle {} ({} recorded, {} sent): sample rate {:?}, expected {}", size, cycle, n, vals.len(), rate, want), cfg.clone());
+                        }
+                    }
+                    states.add(&(size, *n, vals.len()));
+                }
+            }
+        }
+    }
+    res.states = states.len();
+    res.distinct_outcomes = states.len();
+    res.sample(json!({"reservoir": 2, "recorded": [4, 1], "expected": "2 values @0.5, then 1 value @1"}));
+}
+
 fn parts(ctx: &Ctx) -> Vec<PartSpec> {
     let e1 = |s: &str, pb: u64| PartSpec::new(&format!("e1-{}-pb{}", s, pb), json!({"e1": s, "pb": pb})).cpus("0");
-    let mut v = vec![PartSpec::new("e4-sockets", json!({"e4": true})).budget(120.0)];
+    let mut v = vec![PartSpec::new("e4-sockets", json!({"e4": true})).budget(120.0), PartSpec::new("e3-sampling-on", json!({"sampling": true}))];
     if ctx.quick() {
         v.extend([e1("inc", 2), e1("abs", 2), e1("gauge", 2), e1("hist", 2), e1("inc-aggressive", 1)]);
     } else {
@@ -461,6 +507,10 @@ fn run(ctx: &Ctx, spec: &PartSpec) -> PartResult {
     let mut res = PartResult::new(&spec.name, "");
     if spec.arg["e4"].as_bool() == Some(true) {
         e4(ctx, &mut res);
+        return res;
+    }
+    if spec.arg["sampling"].as_bool() == Some(true) {
+        sampling_part(&mut res);
         return res;
     }
     let pb = spec.arg["pb"].as_u64().unwrap_or(2) as usize;
